@@ -250,6 +250,10 @@ func runC01(seed int64, n int, tier string, outDir string) (*Report, error) {
 	if err := rep.AddCases(cw); err != nil {
 		return nil, err
 	}
+	// asIRI against the decoder model's as_iri on the wide URL grammar (c01u.go)
+	if err := c01AsIRI(g, rep, outDir, n); err != nil {
+		return nil, err
+	}
 	return rep, nil
 }
 
@@ -288,12 +292,14 @@ func trunc(s string, n int) string {
 
 func c01Class(diffs []string) string { return "" }
 
-// an IRI anywhere in the value (one level of list / property is enough for the probes) with a byte the URL grammar of
-// the decoder model does not have
+// an IRI anywhere in the value (one level of list / property is enough for the probes) that the decoder model's asIRI
+// does not speak about: a quote, a backslash or a byte below 0x20 (Value.String() re-escapes the text before asIRI
+// looks at it), userinfo or an IP literal (outside the net/url model of Model/UrlU.v).  Bytes >= 0x80 and
+// percent-escapes are inside the model since the URL grammar was widened.
 func c01OutsideURLGrammar(it ap.Item) bool {
 	bad := func(s string) bool {
 		for i := 0; i < len(s); i++ {
-			if s[i] >= 0x80 || s[i] == '%' {
+			if s[i] < 0x20 || s[i] == '"' || s[i] == '\\' || s[i] == '@' || s[i] == '[' {
 				return true
 			}
 		}
@@ -338,7 +344,8 @@ func probeValues(g *Gen, t reflect.Type, name string) []reflect.Value {
 	v := reflect.ValueOf
 	// absolute URLs in presentations a URL library would print differently: an IRI is kept as it was written
 	odd := []ap.Item{ap.IRI("HTTPS://Example.COM/Actors/Alice"), ap.IRI("https://example.com/users/j\u00fcrgen"), ap.IRI("https://example.com/notes/3#"),
-		ap.IRI("https://example.com/a%20b?q=%C3%A9&r=a+b"), ap.IRI("https://example.com:443/x"), ap.IRI("https://example.com/a/../b/./c//d")}
+		ap.IRI("https://example.com/a%20b?q=%C3%A9&r=a+b"), ap.IRI("https://example.com:443/x"), ap.IRI("https://example.com/a/../b/./c//d"),
+		ap.IRI("https://example.com#me"), ap.IRI("https://example.com:8443#k%C3%A9y"), ap.IRI("https://ex\u00e4mple.com/caf\u00e9/li\u212aed?q=a+b")}
 	// two members of one kind that say the same about everything but their id: both are members
 	act2 := &ap.Activity{ID: "https://example.com/act2", Type: ap.LikeType, Actor: id, Object: ap.IRI("https://example.com/notes/1"), Target: ap.IRI("https://example.com/t")}
 	act3 := &ap.Activity{ID: "https://example.com/act3", Type: ap.LikeType, Actor: id, Object: ap.IRI("https://example.com/notes/1"), Target: ap.IRI("https://example.com/t")}
